@@ -509,6 +509,45 @@ pub fn check_case(c: &Case, only_k: Option<u64>, acc: &mut Acc) -> CaseResult {
             return CaseResult::Pass;
         }
     }
+    // ---- the shipped flag watchdog: lowered = unmonitored result, raised = stopped at the first poll ----
+    {
+        use sle::watchdog::{FlagWatchdog, Watchdog};
+        use std::sync::{atomic::AtomicBool, Arc};
+        let flag = Arc::new(AtomicBool::new(false));
+        let fw = FlagWatchdog::new(flag.clone()).polling_every(c.interval);
+        if fw.poll_every() != c.interval {
+            return fail("FlagWatchdog does not report the requested poll interval".into(), format!("{}", fw.poll_every()));
+        }
+        let lowered = guard(|| subj::analyze(&c.bytes, &cfg(c), true, fw.in_rc()));
+        let same = match (&lowered, &lazy) {
+            (Ok(Ok(a)), Ok(Ok(b))) => a == b || monitored.as_ref().map(|m| matches!(m, Ok(x) if x != b)).unwrap_or(false),
+            (Ok(Err(a)), Ok(Err(b))) => subj::error_kinds(a) == subj::error_kinds(b),
+            (Err(_), _) | (_, Err(_)) => true,
+            _ => false,
+        };
+        if !same {
+            return fail("a lowered FlagWatchdog changes the result".into(), String::new());
+        }
+        flag.store(true, std::sync::atomic::Ordering::Relaxed);
+        let fw = FlagWatchdog::new(flag.clone()).polling_every(c.interval);
+        let raised = guard(|| subj::analyze(&c.bytes, &cfg(c), true, fw.in_rc()));
+        match &raised {
+            Ok(Err(e)) if has_stopped_error(e) => acc.label("flag-watchdog-raised"),
+            Ok(Err(e)) => {
+                return fail(
+                    "a raised FlagWatchdog does not end the analysis with StoppedByWatchdog".into(),
+                    format!("{:?}", subj::error_kinds(e)),
+                )
+            }
+            Ok(Ok(l)) => {
+                return fail(
+                    "a layout was returned although the FlagWatchdog was raised from the start".into(),
+                    format!("{:?}", l.slots()),
+                )
+            }
+            Err(_) => {}
+        }
+    }
     acc.max("max_polls_in_a_run", n_total);
     // ---- (2) every stop index ------------------------------------------------------------------------
     let n = n_total;
